@@ -1,12 +1,13 @@
 import Driver.OpsConfig
+import Driver.OpsUnit
 /-! Line-protocol driver: reads one JSON object per line (`op`, `id`, `in`, `out`) from stdin,
     runs the Lean model and the specification on it, and prints one verdict per line. -/
 open Lean Driver
 
 def table : List (String × OpFn) :=
-  [("merge", opMerge), ("validate", opValidate)]
+  [("merge", opMerge), ("validate", opValidate), ("rdn", opRdn), ("raw", opRaw), ("validity", opValidity)]
 
-def handleLine (line : String) : String :=
+def handleLine (view : String) (line : String) : String :=
   match Json.parse line with
   | .error e => (Json.mkObj [("id", (0:Nat)), ("error", s!"parse: {e}")]).compress
   | .ok j =>
@@ -16,19 +17,19 @@ def handleLine (line : String) : String :=
       match table.lookup op with
       | none => (Json.mkObj [("id", id), ("error", s!"unknown op {op}")]).compress
       | some f =>
-        match f i o with
+        match f view i o with
         | .ok v => (v.toJson id op (hash i.compress)).compress
         | .error e => (Json.mkObj [("id", id), ("op", op), ("error", e)]).compress
     | _, _, _ => (Json.mkObj [("id", id), ("error", "missing op/in/out")]).compress
 
-partial def loop (h : IO.FS.Stream) (o : IO.FS.Stream) : IO Unit := do
+partial def loop (view : String) (h : IO.FS.Stream) (o : IO.FS.Stream) : IO Unit := do
   let line ← h.getLine
   if line.isEmpty then return ()
-  if line.trimAscii.toString.isEmpty then loop h o else
-  o.putStrLn (handleLine line)
-  loop h o
+  if line.trimAscii.toString.isEmpty then loop view h o else
+  o.putStrLn (handleLine view line)
+  loop view h o
 
-def main : IO Unit := do
+def main (args : List String) : IO Unit := do
   let i ← IO.getStdin
   let o ← IO.getStdout
-  loop i o
+  loop (args.head?.getD "") i o
